@@ -4,6 +4,7 @@
    (Sys/BufferProg.v), with the thresholds found in the constant declarations. *)
 From Coq Require Import List Permutation.
 From Sdfx Require Import Sys.SysLang Sys.Buffer Sys.BufferProg Generated.SysProgs Generated.BufferConsts.
+From Sdfx Require Import Sys.Pipeline Sys.PipeProg Sys.SysProgsC12.
 Import ListNotations.
 
 Lemma T3_Write_method : is_write_method T3_Write tBufferSize.
@@ -86,4 +87,44 @@ Lemma demo_finishes :
 Proof.
   cbv zeta. split; [|split; vm_compute; reflexivity].
   intros i Hi. destruct i as [|[|i]]; [vm_compute; auto | vm_compute; auto | exfalso; inversion Hi as [|? H]; inversion H as [|? H']; inversion H'].
+Qed.
+
+(* ------------------------------------------------------------------ buffer and sink composed *)
+
+(* One renderer writing ws through the buffer (threshold N) and closing it puts the batches
+   sent (Buffer.run N (map Write ws ++ [Close])) on the channel; a call that delivers its batches
+   therefore ends with the sink holding concat ws. *)
+Lemma end_to_end_intro (A : Type) (N : nat) (dp wp : list stmt) :
+  (exists d w, parse_driver (strip dp) = Some d /\ parse_writer (strip wp) = Some w /\
+     forall (batches : list (list A)) (c : ist A),
+       ireach (w_cons w) (w_opens w) (d_returns d) None (fun _ => false) None (iinit batches) c ->
+       istuck (w_cons w) (w_opens w) (d_returns d) None (fun _ => false) None c ->
+       i_m c = MRet /\ i_k c = Some KExit /\ i_wg c = 0 /\ i_out c = concat batches) ->
+  exists d w, parse_driver (strip dp) = Some d /\ parse_writer (strip wp) = Some w /\
+    forall (ws : list (list A)) (c : ist A),
+      let batches := sent (Buffer.run N (map (@Write A) ws ++ [Close])) in
+      ireach (w_cons w) (w_opens w) (d_returns d) None (fun _ => false) None (iinit batches) c ->
+      istuck (w_cons w) (w_opens w) (d_returns d) None (fun _ => false) None c ->
+      i_m c = MRet /\ i_k c = Some KExit /\ i_wg c = 0 /\ i_out c = concat ws.
+Proof.
+  intros (d & w & H1 & H2 & H). exists d, w. split; [exact H1|]. split; [exact H2|].
+  intros ws c batches Hr Hs. destruct (H batches c Hr Hs) as (Ha & Hb & Hc & Hd).
+  repeat split; auto. rewrite Hd. unfold batches. rewrite <- (single_producer N ws).
+  unfold delivered. now rewrite consume_concat.
+Qed.
+
+Lemma end_to_end (A : Type) :
+  Forall (fun dwn : list stmt * list stmt * nat =>
+    exists d w, parse_driver (strip (fst (fst dwn))) = Some d /\ parse_writer (strip (snd (fst dwn))) = Some w /\
+      forall (ws : list (list A)) (c : ist A),
+        let batches := sent (Buffer.run (snd dwn) (map (@Write A) ws ++ [Close])) in
+        ireach (w_cons w) (w_opens w) (d_returns d) None (fun _ => false) None (iinit batches) c ->
+        istuck (w_cons w) (w_opens w) (d_returns d) None (fun _ => false) None c ->
+        i_m c = MRet /\ i_k c = Some KExit /\ i_wg c = 0 /\ i_out c = concat ws)
+    [(ToTriangles, WriteTriangles, tBufferSize); (ToSTL, writeSTL, tBufferSize); (To3MF, write3MF, tBufferSize);
+     (ToDXF, writeDXF, lBufferSize); (ToSVG, writeSVG, lBufferSize)].
+Proof.
+  pose proof (sinks_deliver A) as H.
+  repeat match goal with H : Forall _ (_ :: _) |- _ => inversion H; subst; clear H end.
+  repeat constructor; cbn [fst snd] in *; apply end_to_end_intro; assumption.
 Qed.
